@@ -21,14 +21,18 @@ PART = {
     imports=["Carquet.Properties.C11.Rle"],
     obligations=["Carquet.Properties.C11." + t for t in (
         "C11_varint_roundtrip", "C11_zigzag_roundtrip", "C11_bitpack_roundtrip", "C11_unpack_special_eq_general",
-        "C11_rle_roundtrip", "C11_rle_levels_roundtrip", "C11_rle_stream_eq_oneshot",
+        "C11_rle_roundtrip", "C11_rle_levels_roundtrip", "C11_rle_stream_eq_oneshot", "C11_rle_history_roundtrip",
         "C11_regression_F1", "C11_regression_F30", "C11_regression_F32", "C11_regression_F33", "C11_regression_F58")],
     rule="rle: regression witnesses (F1 F30 F31 F32 F33) first; varint boundaries of every byte length + random + "
          "arbitrary bytes; pack8/unpack8 at every width 0..32 x fill kinds, pack/unpack with tails n=0..18 (40); "
          "exhaustive: all sequences of length <= 8 (thorough 12) over {0,1} at width 1 through encode_all and "
-         "encode_levels, thorough also <= 11 over {0,1,3} at width 2 and <= 9 over {0,1,max} at widths 7,8,9,32; "
+         "encode_levels, thorough also <= 12 over {0,1,3} at width 2 and over {0,1,max}: <= 10 at widths 7,8,9,32 (values and levels), length 11 at all four and length 12 at width 8 (values only); "
          "run-structured random sequences (run/literal segment lengths around 1,7,8,9,16,64,128) at every width, "
-         "also via put/put_repeat/flush histories; decoder on every prefix / one flipped byte / appended garbage of "
+         "also via put/put_repeat/flush histories; encoder histories with flushes anywhere: all histories of <= 4 "
+         "(thorough 6) calls over {f,p0,p1,r1x3,r0x8,r1x9} at width 1 and <= 3 (5) at width 3, each followed by a final "
+         "flush, plus random ones at every width (the driver checks that everything the Spec decoder reads is the "
+         "values put with < 8 zeros at each flush point, and that the padding counts are the model's flushPads); "
+         "decoder on every prefix / one flipped byte / appended garbage of "
          "real encodings, on grammar-generated streams and on random bytes; streaming histories random and all "
          "histories of depth <= 3 (5) over {g,b1,b7,b9,s1,s8} on three fixed streams; exact-size buffers; "
          "distinct = distinct (op, inputs)",
@@ -37,7 +41,7 @@ PART = {
   "C12": dict(
     imports=["Carquet.Properties.C12.Rle"],
     obligations=["Carquet.Properties.C12." + t for t in (
-        "C12_rle_encoder_emits_stream", "C12_rle_impl_to_spec", "C12_rle_spec_to_impl",
+        "C12_rle_encoder_emits_stream", "C12_rle_impl_to_spec", "C12_rle_history_to_spec", "C12_rle_spec_to_impl",
         "C12_rle_spec_encoder_sound", "C12_bitpack_impl_eq_spec", "C12_varint_impl_eq_spec", "C12_regression_F31")],
     rule="rle: same op stream as C11; the C12 predicates are the driver's Spec checks: Spec decoder recovers the "
          "input from every byte string the real encoders emitted (rle_enc, lev_enc, rle_encops, rle_bigrun), Spec "
@@ -52,10 +56,10 @@ PART = {
 
 # what the check delivers, in the component builder's words
 PART['C11'].update(
-    text='(RLE part) varint/zigzag, raw bit packing and the RLE/bit-packed hybrid (values and int16 levels, with and without length prefix): Lean theorems decode(encode v) = v for every width 0..32 and every sequence, stream decoder = cursor over the one-shot decode for arbitrary bytes; models tied to rle.c / bitpack.c / endian.h by differential execution',
+    text='(RLE part) varint/zigzag, raw bit packing and the RLE/bit-packed hybrid (values and int16 levels, with and without length prefix): Lean theorems decode(encode v) = v for every width 0..32 and every sequence, and for every put/put_repeat/flush history of the encoder state machine (flushes anywhere: the values put, in order, with the < 8 zeros of padding each flush adds to a partial group), stream decoder = cursor over the one-shot decode for arbitrary bytes; models tied to rle.c / bitpack.c / endian.h by differential execution',
     level_note='Lean kernel; harness; model of the repaired code (fixes/F1, F30, F31, F32, F33)',
     technique='Lean 4 proof over executable model + differential correspondence to the C code')
 PART['C12'].update(
-    text="(RLE part) bytes of carquet's RLE/bit-pack encoders are decoded by an independent Spec decoder; carquet's decoders return the values of every stream of the Spec grammar (multi-group runs, zero-length runs, padded final groups, over-long headers); bit packing equals the Spec's LSB-first packing",
+    text="(RLE part) bytes of carquet's RLE/bit-pack encoders (one-shot and every put/put_repeat/flush history) are complete runs of the Spec grammar and are decoded by an independent Spec decoder; carquet's decoders return the values of every stream of the Spec grammar (multi-group runs, zero-length runs, padded final groups, over-long headers); bit packing equals the Spec's LSB-first packing",
     level_note='Lean kernel; harness; my transcription of the Parquet Encodings document (Spec/RleHybrid, Spec/BitPack)',
     technique='Lean 4 proof over executable model + Spec grammar; differential correspondence to the C code')
